@@ -444,8 +444,8 @@ func nwFail(sig, observed, expected string) vrResult {
 // ---------------------------------------------------------------------------
 
 // nwOutsideQuotes calls f for every byte of a written tree that is outside a
-// quoted name; f returns false to stop. Quote-aware: '' inside quotes is an
-// escaped quote.
+// quoted name; f returns false to stop. Quote-aware: a doubled quote inside quotes
+// is an escaped quote.
 func nwOutsideQuotes(b []byte, f func(i int, c byte) bool) {
 	inq := false
 	for i := 0; i < len(b); i++ {
@@ -1703,7 +1703,7 @@ func nwGenTotal(g *vrGen) {
 		strings.Repeat(";", 5000), "'" + strings.Repeat("''", 5000), strings.Repeat("a", 100000) + ";", strings.Repeat("(a,", 3000)} {
 		g.Case(map[string]any{"data": vrS(s)})
 	}
-	count := 60000
+	count := 45000
 	if g.Thorough() {
 		count = 2000000
 	}
@@ -2093,7 +2093,7 @@ func nwClauses() []vrClause {
 			Rule:  "trees written one after another with Write (separator between them) are read back by Reader as the same sequence",
 			Gen:   nwGenMultiTree, Run: nwRunMultiTree},
 		{Prop: "C06", Name: "chunking",
-			Bound: "every partition into reads, with and without EOF-with-data, of 24 well-formed/malformed inputs of <= 9 (quick) / <= 13 (thorough) bytes; fixed schedules {whole,1,2,3,7,1-2-3,4095,4096,4097,...} on all samples and on inputs > 2 bufio buffers; random near-valid inputs with random schedules",
+			Bound: "every partition into reads, with and without EOF-with-data, of those of the 30 well-formed/malformed sample inputs that have <= 9 (quick) / <= 13 (thorough) bytes; fixed schedules {whole,1,2,3,7,1-2-3,4095,4096,4097,...} on all samples and on inputs > 2 bufio buffers; random near-valid inputs with random schedules",
 			Rule:  "item sequence (trees structurally, errors by presence and text) of Reader(chunked reader) == Reader(bytes.Reader)",
 			Gen:   nwGenChunking, Run: nwRunChunking},
 		{Prop: "C06", Name: "crlf",
@@ -2109,7 +2109,7 @@ func nwClauses() []vrClause {
 			Rule:  "every tree item equals the corresponding leading tree of the fault-free decode; at least one non-nil error item (also when the fault hits after the last ';'); at most len(data)+8 items",
 			Gen:   nwGenReadFault, Run: nwRunReadFault},
 		{Prop: "C07", Name: "write-fault",
-			Bound: "18 trees x every k in 0..len(output)+1; random trees with random k",
+			Bound: "18 (thorough: 19) trees x every k in 0..len(output)+1; random trees with random k",
 			Rule:  "Write to a writer that accepts k bytes then fails (short write + error): error != nil iff k < len(MarshalText()); when nil the writer received exactly MarshalText()",
 			Gen:   nwGenWriteFault, Run: nwRunWriteFault},
 		{Prop: "C11", Name: "total",
@@ -2130,5 +2130,3 @@ func nwClauses() []vrClause {
 			Gen:   nwGenTraversal, Run: nwRunTraversal},
 	}
 }
-
-var _ = testing.Verbose
